@@ -474,6 +474,7 @@ def _verify_contract(c: Contract, cfg_label: str, cfg: dict, repo_src: str, regi
     try:
         fnode, module = c.load(ctx)
         rr.source_file = module.__file__
+        c.setup(ex, st, cfg)
         env = {}
         size = cfg.get("_size")
         for pname, spec in c.params.items():
@@ -487,7 +488,6 @@ def _verify_contract(c: Contract, cfg_label: str, cfg: dict, repo_src: str, regi
                 env[pname] = make_value(ex, st, spec(n=c.size_seqs[pname](size)), pname)
             else:
                 env[pname] = make_value(ex, st, spec, pname)
-        c.setup(ex, st, cfg)
         env["$module"] = module
         env["$qualname"] = c.key.split("::")[-1]
         st.frames = [env]
